@@ -1787,6 +1787,11 @@ Htrunc(int32 aid, int32 trunc_len)
     if (access_rec == (accrec_t *)NULL || !(access_rec->access & DFACC_WRITE))
         HGOTO_ERROR(DFE_ARGS, FAIL);
 
+    /* Truncating special elements is not implemented; the DD of a special
+       element describes its header, so shortening it would destroy the element */
+    if (access_rec->special)
+        HGOTO_ERROR(DFE_CANTMOD, FAIL);
+
         /* Dunno about truncating special elements... -QAK */
 #ifdef DONT_KNOW
     /* if special elt, call special function */
